@@ -35,6 +35,12 @@ def mk(line, st, line_no=1):
         if op[0] == "lang":
             tm.match_Language(Token(GherkinLine("# language: " + op[1] + chr(10), 1), {"line": 1}))
             cur = op[1]
+        elif op[0] == "langbad":
+            # an earlier line was a '# language:' header naming an UNKNOWN dialect: the matcher raises and the dialect in force stays
+            try:
+                tm.match_Language(Token(GherkinLine("# language: " + op[1] + chr(10), 1), {"line": 1}))
+            except ParserException:
+                pass
         elif op[0] == "touchstep":
             # an earlier document had a step line written in the dialect then in force (lazily built per-dialect tables get built)
             kw = linespec.master_table()[cur]["given"][-1]
